@@ -165,11 +165,15 @@ fn agrees(g: &Gas, m: &Model) -> bool {
 }
 
 fn step(g: &mut Gas, m: &mut Model) {
+    // all symbolic inputs of the step are drawn unconditionally (keeps concrete playback aligned)
     let op: u8 = kani::any();
+    let arg_u: u64 = kani::any();
+    let arg_i: i64 = kani::any();
+    let arg_b: bool = kani::any();
     kani::assume(op < 6);
     match op {
         0 => {
-            let c: u64 = kani::any();
+            let c: u64 = arg_u;
             let ok = g.record_cost(c);
             let mok = (c as u128) <= m.remaining;
             if mok {
@@ -178,13 +182,13 @@ fn step(g: &mut Gas, m: &mut Model) {
             assert!(ok == mok);
         }
         1 => {
-            let r: u64 = kani::any();
+            let r: u64 = arg_u;
             kani::assume((r as u128) <= m.limit - m.remaining);
             g.erase_cost(r);
             m.remaining += r as u128;
         }
         2 => {
-            let r: i64 = kani::any();
+            let r: i64 = arg_i;
             let s = m.refunded + r as i128;
             kani::assume(s >= i64::MIN as i128 && s <= i64::MAX as i128);
             g.record_refund(r);
@@ -196,13 +200,13 @@ fn step(g: &mut Gas, m: &mut Model) {
         }
         4 => {
             kani::assume(m.refunded >= 0);
-            let london: bool = kani::any();
+            let london: bool = arg_b;
             g.set_final_refund(london);
             let cap = ((m.limit - m.remaining) / if london { 5 } else { 2 }) as i128;
             m.refunded = if m.refunded < cap { m.refunded } else { cap };
         }
         _ => {
-            let s: u64 = kani::any();
+            let s: u64 = arg_u;
             g.set_spent(s);
             let s = if (s as u128) > m.limit { m.limit } else { s as u128 };
             m.remaining = m.limit - s;
